@@ -19,6 +19,7 @@ type SchedConfig struct {
 	ClockMode    string   `json:"clock_mode"`
 	ClockBase    int64    `json:"clock_base"`
 	IdentMode    string   `json:"ident_mode"`
+	EnvMode      string   `json:"env_mode,omitempty"`
 	Bubble       bool     `json:"bubble,omitempty"`
 	GoMode       string   `json:"go_mode,omitempty"`
 	Replay       []Choice `json:"replay,omitempty"`
@@ -40,6 +41,7 @@ type Op struct {
 	Op      string `json:"op"`
 	Path    string `json:"path"`
 	Path2   string `json:"path2,omitempty"`
+	Real    string `json:"real,omitempty"`
 	Write   bool   `json:"write"`
 	Flags   int    `json:"flags,omitempty"`
 	Escaped bool   `json:"escaped,omitempty"`
